@@ -1,8 +1,10 @@
 package main
 
 import (
+	"context"
 	"errors"
 	"fmt"
+	"io"
 	"math/rand"
 	"os"
 	"reflect"
@@ -148,15 +150,23 @@ func errsWrap(v error, text string, form int) error {
 		return fmt.Errorf("%s: %w", text, v)
 	case 2:
 		return fmt.Errorf("[%s] %w (%d)", text, v, form)
-	case 3: // a layer with two %w: an unrelated plain error next to the chain
-		return fmt.Errorf("%w while handling %s: %w", errsSide, text, v)
+	case 3: // a layer with two %w: an unrelated error next to the chain
+		return fmt.Errorf("%w while handling %s: %w", errsSideOf(form, text), text, v)
 	case 4: // errors.Join: the chain is one branch of a tree
-		return errors.Join(v, errsSide)
+		return errors.Join(v, errsSideOf(form, text))
 	}
 	return &errsLayer{text: text, inner: v} // a wrapper type with its own Unwrap
 }
 
 var errsSide = errors.New("side condition")
+
+// errsSideOf: the unrelated sibling of a tree - a plain error, or one of the standard library's sentinels that
+// none of the library's classes stands for (a context that ended, an end of file; NOT os.ErrNotExist and its
+// relatives - those ARE the library's classes)
+func errsSideOf(form int, text string) error {
+	sides := []error{errsSide, context.Canceled, context.DeadlineExceeded, io.EOF, errsSide, io.ErrUnexpectedEOF}
+	return sides[(form/6+len(text))%len(sides)]
+}
 
 type errsLayer struct {
 	text  string
@@ -490,7 +500,7 @@ func driveErrs(opt *Options) error {
 					v, obj = gerrors.EmbedObject(o, v), &o
 				}
 				if d < depth {
-					v = errsWrap(v, errsRandText(rnd, mk, fixed), rnd.Intn(6))
+					v = errsWrap(v, errsRandText(rnd, mk, fixed), rnd.Intn(42))
 				}
 			}
 			w := gerrors.GRPCWrap(v)
